@@ -102,5 +102,116 @@ example : scopeDiags { endian := .little, decls := [⟨.group "A" [], {}⟩, ⟨
           scopeDiags { endian := .little, decls := [⟨.group "B" [], {}⟩, ⟨.group "A" [], {}⟩] } = [] := by
   constructor <;> rfl
 
+
+/-! ### the per-declaration passes do not depend on the order of the declarations -/
+
+/-- a pass that examines the declarations one by one reports the same diagnostics, up to their order, on every
+    permutation of the file -/
+theorem perDecl_perm (f g : File) (h : Decl → List Diag) (hp : f.decls.Perm g.decls) :
+    (perDecl f h).Perm (perDecl g h) := by
+  unfold perDecl
+  exact hp.flatMap_right h
+
+theorem checkFieldIdentifiers_perm (f g : File) (hp : f.decls.Perm g.decls) :
+    (checkFieldIdentifiers f).Perm (checkFieldIdentifiers g) := perDecl_perm f g _ hp
+
+theorem checkEnumDeclarations_perm (f g : File) (hp : f.decls.Perm g.decls) :
+    (checkEnumDeclarations f).Perm (checkEnumDeclarations g) := perDecl_perm f g _ hp
+
+theorem checkSizeFields_perm (f g : File) (hp : f.decls.Perm g.decls) :
+    (checkSizeFields f).Perm (checkSizeFields g) := perDecl_perm f g _ hp
+
+theorem checkArrayFields_perm (f g : File) (hp : f.decls.Perm g.decls) :
+    (checkArrayFields f).Perm (checkArrayFields g) := perDecl_perm f g _ hp
+
+theorem checkPaddingFields_perm (f g : File) (hp : f.decls.Perm g.decls) :
+    (checkPaddingFields f).Perm (checkPaddingFields g) := perDecl_perm f g _ hp
+
+/-- with distinct identifiers, at most one declaration carries a given identifier -/
+theorem unique_of_nodup_ids : ∀ (ds : List Decl), (ds.filterMap Decl.id?).Nodup →
+    ∀ a ∈ ds, ∀ b ∈ ds, ∀ id, a.id? = some id → b.id? = some id → a = b
+  | [], _, a, ha, _, _, _, _, _ => by cases ha
+  | d :: ds, hn, a, ha, b, hb, id, hai, hbi => by
+    have hnd : (ds.filterMap Decl.id?).Nodup := by
+      cases hd : d.id? with
+      | none => simpa [List.filterMap_cons, hd] using hn
+      | some x =>
+        simp only [List.filterMap_cons, hd, List.nodup_cons] at hn
+        exact hn.2
+    rcases List.mem_cons.mp ha with rfl | ha'
+    · rcases List.mem_cons.mp hb with rfl | hb'
+      · rfl
+      · exfalso
+        simp only [List.filterMap_cons, hai, List.nodup_cons] at hn
+        exact hn.1 (List.mem_filterMap.mpr ⟨b, hb', hbi⟩)
+    · rcases List.mem_cons.mp hb with rfl | hb'
+      · exfalso
+        simp only [List.filterMap_cons, hbi, List.nodup_cons] at hn
+        exact hn.1 (List.mem_filterMap.mpr ⟨a, ha', hai⟩)
+      · exact unique_of_nodup_ids ds hnd a ha' b hb' id hai hbi
+
+theorem find?_unique {α : Type} (p : α → Bool) : ∀ (l : List α) (a : α), a ∈ l → p a = true →
+    (∀ b ∈ l, p b = true → b = a) → l.find? p = some a
+  | [], a, h, _, _ => by cases h
+  | x :: l, a, h, hp, hu => by
+    simp only [List.find?]
+    by_cases hx : p x = true
+    · simp only [hx]
+      rw [hu x (List.mem_cons_self ..) hx]
+    · have hx' : p x = false := by simpa using hx
+      simp only [hx']
+      rcases List.mem_cons.mp h with rfl | h'
+      · rw [hp] at hx'; cases hx'
+      · exact find?_unique p l a h' hp (fun b hb hpb => hu b (List.mem_cons_of_mem _ hb) hpb)
+
+/-- **declaration look-up is order independent** (forward references are legal): with distinct identifiers,
+    `scope.typedef.get(id)` finds the same declaration in every permutation of the file -/
+theorem lookupDecl_perm (f g : File) (hp : f.decls.Perm g.decls) (hn : (declIds f).Nodup) (id : String) :
+    lookupDecl f id = lookupDecl g id := by
+  unfold lookupDecl
+  have hng : (declIds g).Nodup := by
+    unfold declIds at hn ⊢
+    exact ((hp.filterMap _).nodup_iff).mp hn
+  cases hf : f.decls.reverse.find? (fun d => d.id? == some id) with
+  | some a =>
+    have ha := List.mem_of_find?_eq_some hf
+    have hpa : (a.id? == some id) = true := by simpa using List.find?_some hf
+    have hag : a ∈ g.decls.reverse := by
+      rw [List.mem_reverse] at ha ⊢
+      exact hp.mem_iff.mp ha
+    symm
+    apply find?_unique _ _ a hag hpa
+    intro b hb hpb
+    rw [List.mem_reverse] at hb hag
+    exact unique_of_nodup_ids g.decls hng b hb a hag id (by simpa using hpb) (by simpa using hpa)
+  | none =>
+    symm
+    rw [List.find?_eq_none] at hf ⊢
+    intro x hx
+    rw [List.mem_reverse] at hx
+    exact hf x (by rw [List.mem_reverse]; exact hp.mem_iff.mpr hx)
+
+/-- hence the fixed-field pass (which resolves enum names) reports the same diagnostics on every permutation -/
+theorem checkFixedFields_perm (f g : File) (hp : f.decls.Perm g.decls) (hn : (declIds f).Nodup) :
+    (checkFixedFields f).Perm (checkFixedFields g) := by
+  unfold checkFixedFields
+  simp only [lookupDecl_perm f g hp hn]
+  exact perDecl_perm f g _ hp
+
+/-- **C09, error codes**: for two files that are permutations of each other (distinct identifiers), each of the
+    per-declaration passes reports the same multiset of diagnostics — in particular the same set of codes, and
+    it accepts one exactly when it accepts the other -/
+theorem passes_order_independent (f g : File) (hp : f.decls.Perm g.decls) (hn : (declIds f).Nodup) :
+    (checkFieldIdentifiers f).Perm (checkFieldIdentifiers g) ∧ (checkEnumDeclarations f).Perm (checkEnumDeclarations g) ∧
+    (checkSizeFields f).Perm (checkSizeFields g) ∧ (checkFixedFields f).Perm (checkFixedFields g) ∧
+    (checkArrayFields f).Perm (checkArrayFields g) ∧ (checkPaddingFields f).Perm (checkPaddingFields g) :=
+  ⟨checkFieldIdentifiers_perm f g hp, checkEnumDeclarations_perm f g hp, checkSizeFields_perm f g hp,
+   checkFixedFields_perm f g hp hn, checkArrayFields_perm f g hp, checkPaddingFields_perm f g hp⟩
+
+theorem perm_nil_iff {α : Type} {l1 l2 : List α} (h : l1.Perm l2) : l1 = [] ↔ l2 = [] := by
+  constructor
+  · intro e; subst e; exact h.symm.eq_nil
+  · intro e; subst e; exact h.eq_nil
+
 end Analyzer
 end Pdlv
